@@ -8,6 +8,7 @@ import (
 	"encoding/json"
 	"fmt"
 	"math/rand"
+	"runtime"
 	"strings"
 	"time"
 
@@ -384,40 +385,66 @@ func runC02(r *fw.Run) {
 		rigFailure(r, "C02", err, "unix")
 		return
 	}
-	padSizes := []int{0, 3900, 4000, 4050, 4096, 4200, 8100, 8192, 8300, 70000}
+	padSizes := []int{0, 3900, 4000, 4050, 4096, 4200, 8100, 8192, 8300, 70000, 300000, 1 << 20}
 	nb := r.Pick(30, 300)
 	tag := 0
 	for k := 0; k < nb; k++ {
-		tag++
-		base := genConnScript(rng, jg, fmt.Sprintf("b%d", tag), 4, false)
-		for i := range base.Calls {
-			if base.Calls[i].Script != nil && rng.Intn(2) == 0 {
-				base.Calls[i].Script.Pad = json.RawMessage(jg.BigString(padSizes[rng.Intn(len(padSizes))] + rng.Intn(8)))
+		// three connections with different big payloads run concurrently: a reply that is still being written
+		// (the reader has not drained it yet) must not be disturbed by another connection's reply
+		var bases []*ConnScript
+		total := 0
+		for c := 0; c < 3; c++ {
+			tag++
+			base := genConnScript(rng, jg, fmt.Sprintf("b%d", tag), 4, false)
+			for i := range base.Calls {
+				if base.Calls[i].Script != nil && rng.Intn(2) == 0 {
+					base.Calls[i].Script.Pad = json.RawMessage(jg.BigString(padSizes[rng.Intn(len(padSizes))] + rng.Intn(8)))
+					total += len(base.Calls[i].Script.Pad)
+				}
 			}
+			bases = append(bases, base)
 		}
 		for seg := 0; seg < 5; seg++ {
-			cs := *base
-			cs.Seg, cs.SegS = seg, rng.Int63()
-			if seg == 1 {
-				n := 0
-				for _, c := range cs.Calls {
-					if c.Script != nil {
-						n += len(c.Script.Pad)
-					}
-				}
-				if n > 20000 {
-					continue
-				}
+			if seg == 1 && total > 20000 {
+				continue
 			}
-			cc := &c01Case{Transport: "unix", Ifaces: c01Ifaces, Conns: []*ConnScript{&cs}}
-			r.Journal(0, map[string]interface{}{"what": "service reception", "seg": seg})
+			cc := &c01Case{Transport: "unix", Ifaces: c01Ifaces}
+			for _, base := range bases {
+				cs := *base
+				cs.Seg, cs.SegS = seg, rng.Int63()
+				cc.Conns = append(cc.Conns, &cs)
+			}
+			r.Journal(0, map[string]interface{}{"what": "service reception, 3 concurrent connections", "seg": seg})
 			c01Round(r, g, "C02", cc, true)
 			r.Done(0)
-			b, _ := json.Marshal(cs.Calls)
+			b, _ := json.Marshal(bases[0].Calls)
 			r.Case(fw.Hash("recv", fmt.Sprint(seg), fmt.Sprint(fw.HashBytes(b))), true)
 			r.Count("service_reception_partitions", 1)
 		}
 	}
+	// many connections whose replies (larger than the socket buffer) are in flight at the same time, read slowly by
+	// the clients, on two processors only, so that handlers constantly take over each other's processor while a
+	// write is pending
+	prevProcs := runtime.GOMAXPROCS(2)
+	for k := 0; k < r.Pick(6, 40); k++ {
+		cc := &c01Case{Transport: "unix", Ifaces: c01Ifaces}
+		for c := 0; c < 12; c++ {
+			tag++
+			cs := &ConnScript{Seg: 0, SegS: rng.Int63(), SlowUS: 100 + rng.Intn(400)}
+			for j := 0; j < 3; j++ {
+				sc := &CallScript{ID: fmt.Sprintf("big%d.%d", tag, j), Pad: json.RawMessage(jg.BigString(150000 + rng.Intn(250000))),
+					Steps: []Step{{Op: "reply", Cont: true}, {Op: "reply"}}}
+				cs.Calls = append(cs.Calls, GenCall{Method: "org.example.script.Big", Flags: "m", Script: sc})
+			}
+			cc.Conns = append(cc.Conns, cs)
+		}
+		r.Journal(0, map[string]interface{}{"what": "12 connections with concurrent big replies, slow readers"})
+		c01Round(r, g, "C02", cc, true)
+		r.Done(0)
+		r.Case(fw.Hash("bigconc", fmt.Sprint(k)), true)
+		r.Count("concurrent_big_reply_rounds", 1)
+	}
+	runtime.GOMAXPROCS(prevProcs)
 	g.Stop()
 	// Part C: reception by the client under exact partitions (scripted raw server, model of C11)
 	srv, err := newRawServer(r.WorkDir)
